@@ -93,6 +93,8 @@ def _check_init(tx: ast.Module, ds: ast.Module, ice: ast.Module) -> None:
 
 NO_SCHEMA_IF_HEAD = "if schema is None:\n    schema = self._resolve_table_schema()\n    if schema is None:\n        raise ValueError("
 NO_SCHEMA_IF_TAIL = "\nelse:\n    self._validate_schema_against_table(schema)"
+# (F-C11 repair 0c35afc: the schema ARGUMENT object is re-validated as it is now before it is compared with the table's)
+NO_SCHEMA_IF_TAIL2 = "\nelse:\n    Schema(schema_id=schema.schema_id, fields=schema.fields)\n    self._validate_schema_against_table(schema)"
 
 
 def _append_order(tx: ast.Module) -> List[str]:
@@ -105,7 +107,8 @@ def _append_order(tx: ast.Module) -> List[str]:
         calls = sorted({_u(c.func) for c in ast.walk(s) if isinstance(c, ast.Call)})
         if t.startswith("if not self.is_active():") and isinstance(s, ast.If) and not s.orelse:
             acts.append("AAActive")
-        elif t.startswith(NO_SCHEMA_IF_HEAD) and t.endswith(NO_SCHEMA_IF_TAIL) and isinstance(s, ast.If) and len(s.body) == 2 and len(s.orelse) == 1 \
+        elif t.startswith(NO_SCHEMA_IF_HEAD) and (t.endswith(NO_SCHEMA_IF_TAIL) and len(s.orelse) == 1 or t.endswith(NO_SCHEMA_IF_TAIL2) and len(s.orelse) == 2) \
+                and isinstance(s, ast.If) and len(s.body) == 2 \
                 and isinstance(s.body[1], ast.If) and len(s.body[1].body) == 1 and isinstance(s.body[1].body[0], ast.Raise) and not s.body[1].orelse:
             acts += ["AAResolveSchema", "AARaiseNoSchema", "AAValidateArg"]
         elif t == "self._register_inflight(file_path)":
@@ -117,7 +120,7 @@ def _append_order(tx: ast.Module) -> List[str]:
             acts.append("AADataWrite")
         elif t == "self._written_files.append(file_path)":
             acts.append("AATrack")
-        elif t == "self.append_files([updated_data_file])":
+        elif t in ("self.append_files([updated_data_file])", "self.append_files([updated_data_file], _statistics_computed_here=True)"):
             acts.append("AAQueue")
         elif isinstance(s, ast.Return):
             continue
